@@ -44,6 +44,10 @@ fn rust_str(s: &str) -> String {
 
 impl Validator {
     fn to_rust(&self) -> String {
+        // a validator the tool does not translate, written out verbatim: "raw:<text>"
+        if let Some(raw) = self.kind.strip_prefix("raw:") {
+            return raw.to_string();
+        }
         let mut parts = vec![];
         if let Some(m) = &self.min {
             parts.push(format!("min = {}", m));
@@ -63,6 +67,7 @@ impl Validator {
     fn expected(&self) -> Vec<(String, Option<f64>, Option<String>)> {
         let num = |s: &String| s.replace('_', "").parse::<f64>().ok();
         match self.kind.as_str() {
+            k if k.starts_with("raw:") => vec![],
             "email" | "url" => vec![(self.kind.clone(), None, self.message.clone())],
             _ => {
                 let mut v = vec![];
@@ -136,6 +141,39 @@ pub fn eval(fields: &[FieldSpec]) -> Outcome {
         LibStatus::Ok(_) => {}
     }
     let Some(src) = run.file("types.ts") else { return Outcome::NotAccepted("types.ts not written".into()) };
+    judge_src(fields, src)
+}
+
+/// Two runs of the real binary / build path into one output directory: only the validator
+/// attributes of the field change in between. The schema must show the second declaration.
+pub fn eval_history(before: &FieldSpec, after: &FieldSpec, build: bool) -> Vec<Violation> {
+    use crate::sbx::{self, FileCfg, RunOpts, Seam};
+    let seam = if build { Seam::Build } else { Seam::Cli };
+    let sb = crate::run::Sandbox::new();
+    let cfg = FileCfg { zod: true, ..Default::default() };
+    sbx::write_sources(&sb.root, &project(std::slice::from_ref(before)), &cfg);
+    let r1 = sbx::run_generate(&sb.root, seam, &RunOpts::default());
+    sbx::write_sources(&sb.root, &project(std::slice::from_ref(after)), &cfg);
+    let r2 = sbx::run_generate(&sb.root, seam, &RunOpts::default());
+    if !r1.success() || !r2.success() {
+        return vec![];
+    }
+    let files = crate::run::read_out_dir(&sbx::out_dir(&sb.root, &cfg));
+    let Some(src) = files.get("types.ts") else { return vec![] };
+    match judge_src(std::slice::from_ref(after), src) {
+        Outcome::Judged(v) => v
+            .into_iter()
+            .map(|(_, c, d)| {
+                let mut x = mk(after, &format!("after-edit:{}", c), format!("validators edited from `{}` to `{}` between two runs into the same directory ({}): {}", before.attr_lines().trim(), after.attr_lines().trim(), seam.name(), d));
+                x.replay = json!({"history": {"before": before, "after": after, "build": build}});
+                x.field("seam", seam.name())
+            })
+            .collect(),
+        _ => vec![],
+    }
+}
+
+fn judge_src(fields: &[FieldSpec], src: &str) -> Outcome {
     let m = match ts::parse_module(src) {
         Ok(m) => m,
         Err(e) => return Outcome::Unparsable(e.to_string()),
@@ -245,6 +283,10 @@ fn mk(f: &FieldSpec, class: &str, detail: String) -> Violation {
 }
 
 pub fn replay(case: &Value) -> Vec<Violation> {
+    if let Some(h) = case.get("history") {
+        let (Ok(b), Ok(a)) = (serde_json::from_value::<FieldSpec>(h["before"].clone()), serde_json::from_value::<FieldSpec>(h["after"].clone())) else { return vec![] };
+        return eval_history(&b, &a, h["build"].as_bool().unwrap_or(false));
+    }
     let Ok(f) = serde_json::from_value::<FieldSpec>(case["field"].clone()) else { return vec![] };
     match eval(std::slice::from_ref(&f)) {
         Outcome::Judged(v) => v.into_iter().map(|(_, c, d)| mk(&f, &c, d)).collect(),
@@ -359,6 +401,23 @@ pub fn field_specs(tier: Tier) -> Vec<FieldSpec> {
             }
         }
     }
+    // (2c) validators the tool does not translate, before / after / between translated ones, in one
+    // attribute and in separate ones: they add nothing and take nothing away
+    let foreign = ["custom(function = \"check_handle\")", "custom(function = \"f\", message = \"custom failed\")", "regex(path = *HANDLE_RE)", "must_match(other = \"confirm\")", "contains(pattern = \"x\")", "required", "nested", "non_control_character", "does_not_contain(pattern = \"y\", message = \"no y\")"];
+    for f in foreign {
+        let fv = val(&format!("raw:{}", f), None, None, None);
+        let known = [val("length", Some("3"), Some("20"), None), val("email", None, None, Some("bad mail")), val("url", None, None, None)];
+        for k in &known {
+            for order in 0..2 {
+                let pair = if order == 0 { vec![fv.clone(), k.clone()] } else { vec![k.clone(), fv.clone()] };
+                v.push(FieldSpec { ty: "String".into(), attrs: vec![pair.clone()] });
+                v.push(FieldSpec { ty: "String".into(), attrs: pair.iter().map(|x| vec![x.clone()]).collect() });
+            }
+        }
+        v.push(FieldSpec { ty: "String".into(), attrs: vec![vec![known[0].clone(), fv.clone(), known[1].clone()]] });
+        v.push(FieldSpec { ty: "i32".into(), attrs: vec![vec![fv.clone(), val("range", Some("1"), Some("9"), Some("out"))]] });
+        v.push(FieldSpec { ty: "String".into(), attrs: vec![vec![fv.clone()]] });
+    }
     // (3) message alphabet on length(String), range(i32), email
     for m in messages(if tier == Tier::Quick { 5 } else { 6 }) {
         v.push(FieldSpec { ty: "String".into(), attrs: vec![vec![val("length", Some("1"), Some("5"), Some(&m))]] });
@@ -375,6 +434,30 @@ pub fn run(tier: Tier) -> CheckResult {
     let mut res = CheckResult::new("C11", "exploration");
     let deadline = tier_deadline(tier);
     let specs = field_specs(tier);
+    // edit histories on the real binary and the build path: message only, bound only, validator
+    // added / removed / exchanged - the second run's schema shows the second declaration
+    {
+        let val = |kind: &str, min: Option<&str>, max: Option<&str>, msg: Option<&str>| Validator { kind: kind.into(), min: min.map(|s| s.to_string()), max: max.map(|s| s.to_string()), message: msg.map(|s| s.to_string()) };
+        let f = |ty: &str, vs: Vec<Validator>| FieldSpec { ty: ty.into(), attrs: if vs.is_empty() { vec![] } else { vec![vs] } };
+        let pairs: Vec<(FieldSpec, FieldSpec)> = vec![
+            (f("String", vec![val("length", Some("1"), Some("9"), Some("old text"))]), f("String", vec![val("length", Some("1"), Some("9"), Some("new text"))])),
+            (f("String", vec![val("length", Some("1"), Some("9"), Some("old text"))]), f("String", vec![val("length", Some("1"), Some("9"), None)])),
+            (f("String", vec![val("length", Some("1"), Some("9"), None)]), f("String", vec![val("length", Some("1"), Some("9"), Some("now with text"))])),
+            (f("i32", vec![val("range", Some("0"), Some("5"), Some("old"))]), f("i32", vec![val("range", Some("0"), Some("5"), Some("new"))])),
+            (f("i32", vec![val("range", Some("0"), Some("5"), None)]), f("i32", vec![val("range", Some("0"), Some("6"), None)])),
+            (f("i32", vec![val("range", Some("0"), None, None)]), f("i32", vec![val("range", Some("-1.5"), None, None)])),
+            (f("String", vec![val("email", None, None, Some("old mail text"))]), f("String", vec![val("email", None, None, Some("new mail text"))])),
+            (f("String", vec![val("url", None, None, None)]), f("String", vec![val("url", None, None, Some("bad url"))])),
+            (f("String", vec![val("email", None, None, None)]), f("String", vec![val("url", None, None, None)])),
+            (f("String", vec![]), f("String", vec![val("length", Some("2"), None, None)])),
+            (f("String", vec![val("length", Some("2"), None, None)]), f("String", vec![])),
+            (f("Vec<String>", vec![val("length", Some("1"), None, Some("one"))]), f("Vec<String>", vec![val("length", None, Some("3"), Some("three"))])),
+        ];
+        let work: Vec<(&(FieldSpec, FieldSpec), bool)> = pairs.iter().flat_map(|p| [(p, false), (p, true)]).collect();
+        let hv: Vec<Violation> = work.par_iter().flat_map(|((b, a), build)| eval_history(b, a, *build)).collect();
+        res.coverage.set("edit_histories", work.len() as u64);
+        res.violations.extend(hv);
+    }
     // batches of 24 fields per struct; a batch that panics / is not accepted / unreadable is re-run
     // field by field
     let chunks: Vec<&[FieldSpec]> = specs.chunks(24).collect();
